@@ -10,6 +10,7 @@ Definition exU : list R := [0; 0; 0; 1/2; 1; 1; 1].
 Definition exL : list R := [0; 0 + (1/2 - 0) / (1 + 1); 1/2; 1/2 + (1 - 1/2) / (1 + 1); 1].   (* 0, 1/4, 1/2, 3/4, 1 *)
 Definition exX : list R := [1/4; 1/4; 1/2; 3/4; 3/4].
 
+Ltac ssorted := repeat (first [apply SSorted_nil | apply SSorted_cons | apply Forall_nil | apply Forall_cons]); lra.
 Ltac rdec := repeat (match goal with
   | |- context [Rlt_dec ?a ?b] => destruct (Rlt_dec a b); try (exfalso; lra)
   | |- context [Rle_dec ?a ?b] => destruct (Rle_dec a b); try (exfalso; lra) end).
@@ -23,7 +24,7 @@ Proof.
 Qed.
 
 Lemma exU_sorted : sortedR exU.
-Proof. apply StronglySorted_sortedR. unfold exU. repeat constructor; lra. Qed.
+Proof. apply StronglySorted_sortedR. unfold exU. ssorted. Qed.
 
 Example default_ok_satisfiable : default_ok (1/1000) 2 exU 4 1.
 Proof.
@@ -40,7 +41,7 @@ Example refine_ok_satisfiable : refine_ok (1/1000) 2 exU 4 exX.
 Proof.
   unfold refine_ok.
   split; [lia|]. split; [exact exU_sorted|]. split; [lia|]. split; [reflexivity|]. split; [discriminate|].
-  split; [apply StronglySorted_sortedR; unfold exX; repeat constructor; lra|].
+  split; [apply StronglySorted_sortedR; unfold exX; ssorted|].
   split; [unfold exX, exU, kn; cbn; lra|]. split; [unfold exX, exU, kn; cbn; lra|].
   split.
   - unfold exX, exU. cbn [In app]. intros x y Hx Hy Hlt.
